@@ -30,6 +30,7 @@ FieldOf(kind, tgt) ==
     [] kind = "arr0" -> <<Field("r", "pub", <<>>, TArr(TNm(tgt), 0), None, FALSE)>>
     [] kind = "ptr"  -> <<Field("r", "pub", <<>>, TMPtr(TNm(tgt)), None, FALSE)>>
     [] kind = "base" -> <<Field("r", "pub", <<>>, TNm(tgt), None, TRUE)>>
+    [] kind = "base0" -> <<Field("r", "pub", <<>>, TNm(tgt), 0, TRUE)>>
     [] kind = "vptr" -> <<Field("r", "pub", <<>>, TCPtr(TNm(tgt \o "Vftable")), None, FALSE)>>
     [] OTHER -> <<>>
 
@@ -54,8 +55,8 @@ ShapeOk(i, s) ==
   /\ (s.fk \in {"vparam", "vret"} => s.ft # Undefined)
 
 TypeOf(i, s) ==
-  [TypeDef(Names[i], "pub", (IF s.kind = "base" THEN <<>> ELSE <<Leaf>>) \o FieldOf(s.kind, s.tgt)
-                             \o (IF s.kind = "base" THEN <<Leaf>> ELSE <<>>))
+  [TypeDef(Names[i], "pub", (IF s.kind \in {"base", "base0"} THEN <<>> ELSE <<Leaf>>) \o FieldOf(s.kind, s.tgt)
+                             \o (IF s.kind \in {"base", "base0"} THEN <<Leaf>> ELSE <<>>))
      EXCEPT !.vft = IF s.vft THEN VftBlock ELSE NoVft]
 
 MkInput(ptr, ss) ==
@@ -171,6 +172,6 @@ Replay == Terminal => PrintT(<<"REPLAY", ToJson(ReplayRecord)>>)
 (* pick in every pass (so PViol is evaluated on every distinct terminal state) but prints  *)
 (* one witness schedule per distinct terminal state                                        *)
 
-View == <<input, phase, added, mods, reg, start, todo, err, out>>
+View == StdView
 
 =============================================================================
